@@ -89,6 +89,12 @@ CLAIMED = {
   "note": "Trusted: Lean kernel + Mathlib (list permutations, lexicographic order on List String); factorize is exponential in the implementation and is asked only for dimensionalities of low complexity; after the fix Factors' PartialOrd agrees with Ord, which is what makes the sorted-list model of the BinaryHeap exact.",
   "design_ref": "DESIGN.md §7 C17",
  },
+ "C20": {
+  "technique": "Lean 4 proof: invariant over every prefix (crash point) of the file-operation sequence of download_to_file/cached/load for all prior directories and all server scripts + correspondence of the operation sequence, cache bytes and loader outcome with the real rink binary under strace against a fault-injecting HTTP server, with SIGKILL injected at every step",
+  "text": "Theorems in lean/Rink/Props/C20.lean hold for every prior cache directory (file absent/fresh/stale, any bytes, orphan temp files), every server script (any status, any chunking, complete / transport error after k chunks / stall after k chunks), every temp-name draw, both entry points and every crash point k: after the first k operations the cache entry is exactly the prior one or exactly the complete new body, the latter only after a transfer that completed with status 200 (cache_atomic, cache_never_partial, cache_changes_only_on_complete_200, failed_transfer_leaves_cache); the rename is the last operation, directly after fsync of the same temp file and after every chunk was written, and a failed download renames nothing (commit_is_last_and_synced); the temp name never equals the cache name (temp_name_differs); load() continues for every directory and server (startup_always_continues), hands the stale contents to the loader when the refresh fails (failed_refresh_falls_back), starts without currency when there is no file (no_cache_still_starts), uses a fresh file without any other operation (fresh_cache_used); a failed --fetch-currency leaves the entry (failed_fetch_leaves_cache); after a successful refresh the file holds the whole body and the next start reads it while it is current or whenever the later refresh fails (fetch_installs_body, startup_installs_body, next_start_reads, success_visible). The model (one Op per system call on the cache directory) is tied to cli/src/config.rs by running the real binary for prior {absent, fresh, stale, unreadable stale/fresh, mtime in the future} x server {200 in 1/3/8 pieces, Content-Length cut at k bytes, 301/404/500(+302/403/429/503), stall before headers / after k bytes, refused, chunked without terminator, RST} x entry {expression arguments, -f -, --fetch-currency} (+ fetch_on_startup=false, enabled=false) under strace -f -y and comparing the canonical syscall sequence on the cache directory, the final cache state, exit status and which rates answered `1 EUR -> USD` with the model's prediction; independently of the model a property oracle checks old-or-complete-new bytes, no replacement without a clean 200, that `1 meter -> feet` is answered, the stale fallback, and what the next start (server unreachable) reads; SIGKILL is injected at the entry of every system call on the cache directory, of the call after it and of every write(2) up to the first one after the commit, and in the middle of a stalled transfer, and the cache file must equal the model's state at that crash point.",
+  "note": "Trusted: Lean kernel; axioms propext/Quot.sound/Classical.choice only. Assumed, not proved: rename(2) is atomic; data passed to write(2) survives SIGKILL (power loss / fsync durability not modelled, only the fsync-before-rename order); libcurl turns short Content-Length bodies, unterminated chunked bodies, resets, refusals and timeouts into an error from perform(); tempfile uses O_CREAT|O_EXCL; a single process refreshes at a time. A close-delimited body cut by the peer is indistinguishable from a complete one (explored and reported in the evidence, outside the statement). Crash points exercised on the binary are syscall entries and a mid-transfer kill; strace and tools/fault_http.py are trusted to report/serve what they say.",
+  "design_ref": "DESIGN.md §7 C20",
+ },
 }
 
 NOT_YET = {
